@@ -879,13 +879,10 @@ func (p *CodeBuilder) IndexRef(nidx int, src ...ast.Node) *CodeBuilder {
 // checkIndexType checks the index operand of a[i]: the key type for a map, an integer (or a
 // non-negative constant representable as int) otherwise.
 func (p *CodeBuilder) checkIndexType(idx *internal.Elem, key types.Type, ivKind int) {
-	if ivKind == ivTwoValue { // map
+	if ivKind == ivTwoValue || ivKind == ivMapStringAny { // map, or any read as map[string]any
 		if err := matchType(p.pkg, idx, key, "map index"); err != nil {
 			panic(err)
 		}
-		return
-	}
-	if ivKind == ivMapStringAny {
 		return
 	}
 	src, pos, end := p.loadExpr(idx.Src)
